@@ -113,9 +113,13 @@ pub fn install_panic_hook() {
         } else {
             "<non-string panic>".to_string()
         };
+        if GUARD_DEPTH.load(std::sync::atomic::Ordering::SeqCst) == 0 {
+            eprintln!("harness panic (outside guard): {} at {}", msg, loc);
+        }
         *LAST_PANIC.lock().unwrap() = Some((loc, msg));
     }));
 }
+static GUARD_DEPTH: std::sync::atomic::AtomicUsize = std::sync::atomic::AtomicUsize::new(0);
 
 #[derive(Debug, Clone)]
 pub struct PanicInfo {
@@ -151,7 +155,10 @@ impl PanicInfo {
 }
 
 pub fn guard<T>(f: impl FnOnce() -> T) -> Result<T, PanicInfo> {
-    match catch_unwind(AssertUnwindSafe(f)) {
+    GUARD_DEPTH.fetch_add(1, std::sync::atomic::Ordering::SeqCst);
+    let r = catch_unwind(AssertUnwindSafe(f));
+    GUARD_DEPTH.fetch_sub(1, std::sync::atomic::Ordering::SeqCst);
+    match r {
         Ok(v) => Ok(v),
         Err(_) => {
             let (location, message) = LAST_PANIC.lock().unwrap().take().unwrap_or_default();
@@ -302,6 +309,37 @@ impl CaseWriter {
         s.push_str("].\n");
         std::fs::write(&path, s).unwrap();
         self.cur.clear();
+        self.shard += 1;
+    }
+    /// a group of cases sharing definitions: written as one shard of its own
+    pub fn push_group(&mut self, defs: &[String], cases: Vec<(String, Value)>) {
+        self.flush();
+        if cases.is_empty() {
+            return;
+        }
+        let path = format!("{}/{}_{:03}.v", self.dir, self.prefix, self.shard);
+        let mut s = String::new();
+        s.push_str(&self.header);
+        s.push('\n');
+        for d in defs {
+            s.push_str(d);
+            s.push('\n');
+        }
+        let n = cases.len();
+        for (i, (c, descr)) in cases.into_iter().enumerate() {
+            let _ = writeln!(s, "Definition c{} : bool := {}.", i, c);
+            self.ids.push(descr);
+            self.total += 1;
+        }
+        s.push_str("Eval vm_compute in [");
+        for i in 0..n {
+            if i > 0 {
+                s.push(';');
+            }
+            let _ = write!(s, "c{}", i);
+        }
+        s.push_str("].\n");
+        std::fs::write(&path, s).unwrap();
         self.shard += 1;
     }
     pub fn finish(mut self) -> Vec<Value> {
